@@ -135,6 +135,53 @@ def build_variant(work: Path, tag, files, fmt, variant, r):
         shutil.rmtree(root, ignore_errors=True)
 
 
+def source_order(chk):
+    """Sources.tla: the resolved source order is a function of the files alone (not of the working directory or the
+    argument order); every exported scenario is replayed into the real config.load from the real working directory."""
+    res = common.run_tlc("Sources", "Sources.cfg", timeout=600)
+    chk.add_tlc(res, "Sources (exhaustive: 2-3 files in <=2 directories x working directories x argument orders)")
+    if not res.ok:
+        chk.tlc_violation(res, "Sources")
+    neg = common.run_tlc("Sources", "Sources_relsort.cfg", timeout=600, coverage=False)
+    chk.add_tlc(neg, "Sources_relsort (sorting the spellings: expected to violate Canonical)")
+    if neg.ok:
+        raise MachineryError("Sources_relsort.cfg holds: Canonical is vacuous")
+    common.setup_repo_imports()
+    from nanoemoji import config as ncfg
+
+    names = {1: "a", 2: "b", 5: "emoji_u1f600.svg", 6: "emoji_u1f601.svg", 7: "emoji_u1f602.svg", 0: ".."}
+    recs = res.records
+    r = common.rng("c08-sources")
+    r.shuffle(recs)
+    old = os.getcwd()
+    with common.scratch("c08src-") as root:
+        for d in ("a", "b"):
+            (root / d).mkdir()
+        for f in (5, 6, 7):
+            for d in ("", "a", "b"):
+                (root / d / names[f]).write_text(cli.SVG_A)
+        try:
+            for sc in recs[: (120 if chk.tier == "quick" else len(recs))]:
+                cwd = root.joinpath(*[names[x] for x in sc["cwd"]])
+                os.chdir(cwd)
+                spelled = []
+                for p in sc["srcs"]:
+                    ab = root.joinpath(*[names[x] for x in p])
+                    spelled.append(Path(os.path.relpath(ab, cwd)))
+                if sc["perm"]:
+                    spelled.reverse()
+                fc = ncfg.load(config_file=None, additional_srcs=tuple(spelled))
+                got = [os.path.relpath(str(x), root) for x in fc.masters[0].sources]
+                want = ["/".join(names[x] for x in p) for p in sc["resolved"]]
+                chk.case(key=("sources", json.dumps(sc, sort_keys=True)), nontrivial=bool(sc["cwd"]))
+                chk.traces_validated += 1
+                if got != want:
+                    chk.violation(f"sources {[str(x) for x in spelled]} given from {'/'.join(names[x] for x in sc['cwd']) or '.'} resolve to the order "
+                                  f"{got}; from the project root (and in the model) the order is {want}", {"scenario": sc})
+        finally:
+            os.chdir(old)
+
+
 def run(chk):
     quick = chk.tier == "quick"
     chk.rule = (
@@ -144,6 +191,7 @@ def run(chk):
         "cwd/build-dir layout, compared by sha256.  Non-trivial = a variant that differs from the base build in one "
         "of those dimensions; distinct by (format, variant)."
     )
+    source_order(chk)
     r = common.rng("c08")
     fmts = ["glyf_colr_1", "picosvg", "cbdt"] if quick else [
         "glyf_colr_1", "glyf_colr_0", "picosvg", "untouchedsvg", "cbdt", "sbix", "glyf", "cff_colr_1", "picosvgz"]
